@@ -4,6 +4,7 @@ import (
 	"fmt"
 	"strings"
 	"time"
+	"unicode/utf8"
 
 	"github.com/c4pt0r/kvql"
 )
@@ -29,6 +30,9 @@ var lexPool = []string{
 	"a", "b", "K", "key", "value", "select", "WHERE", "and", "or", "in", "between", "limit", "1", "23", "4.5", ".5", "1e3", "nan", "inf",
 	" ", "  ", "\t", "\n", "'", "\"", "`", "=", "!", "<", ">", "^", "~", "*", "+", "-", "/", "&", "|", "(", ")", "[", "]", ",", ";",
 	"^=", "~=", "!=", "<=", ">=", "'x y'", "\"q\"", "`n m`", "'='", "'a''b'", "x_y", "0x1p3", "9223372036854775808", "1e999",
+	// valid multi-byte UTF-8: inside literals (any text) and as words made of lower-case or caseless letters
+	// (Go's ToLower is the identity on them; none of them is a Unicode space), incl. continuation bytes 0x85 / 0xA0
+	"'café'", "\"键\"", "`naïve ü`", "'😅 ok'", "'100% %s %%'", "voilà", "århus", "ąbc", "x丅y", "ok😅", "é", "键值",
 }
 
 func lexCheckOne(col *Collector, d *Driver, q string, seed, idx uint64, count bool) error {
@@ -252,6 +256,20 @@ func lexSpacingOne(col *Collector, r *Rand, seed, idx uint64) {
 // asciiOutsideLiterals replaces every non-ASCII byte that is not inside a terminated
 // literal by 'z': the model's case folding is Go's only on ASCII words (trusted base).
 func asciiOutsideLiterals(q string) string {
+	if utf8.ValidString(q) {
+		// non-ASCII characters known to be lower-case or caseless and not Unicode spaces: Go folds case
+		// (and trims) like the ASCII-only model on them, in word position too
+		safe := true
+		for _, r := range q {
+			if r >= 0x80 && !strings.ContainsRune("àåąéïü丅键值😅", r) {
+				safe = false
+				break
+			}
+		}
+		if safe {
+			return q
+		}
+	}
 	b := []byte(q)
 	for i := 0; i < len(b); i++ {
 		c := b[i]
